@@ -25,6 +25,7 @@ REGISTRY = {
     "C05": ("harness.checks.warm", "run"),
     "C19": ("harness.checks.degen", "run"),
     "C20": ("harness.checks.boundsck", "run"),
+    "C10": ("harness.checks.storage", "run"),
 }
 
 
